@@ -118,7 +118,8 @@ def run(ctx):
                 # covering sample: every single flag on and off, plus random combinations
                 combos = [('F', False, False, False, False, False, None), ('L', False, False, False, False, False, 'silent'),
                           ('F', True, False, False, True, False, 'info'), ('F', False, True, True, False, False, None),
-                          ('F', False, False, False, False, True, None), ('L', False, True, False, True, True, None)]
+                          ('F', False, False, False, False, True, None), ('L', False, True, False, True, True, None),
+                          ('L', True, False, True, True, False, None), ('F', False, False, True, True, True, 'silent')]
                 combos += rng.sample(allc, 4)
             for c in combos:
                 jobs.append((fi, src, c))
